@@ -709,7 +709,25 @@ fn drive_hist(r: &mut Rng, n: usize, log: &mut Log, likely: bool) {
         produced += 1;
         // every third history grows one container well past the sizes the small pools reach, queries it, and
         // shrinks it again in a different order (accumulated state: binary-search positions, capacities, thresholds)
-        let scripted: Vec<Value> = if r.chance(1, 3) { gen_grow_shrink(r) } else { Vec::new() };
+        let mut scripted: Vec<Value> = if r.chance(1, 3) { gen_grow_shrink(r) } else { Vec::new() };
+        if !scripted.is_empty() && r.chance(1, 2) {
+            // identifier-level operations in between: they must leave the grown containers alone (C07, C08, C10)
+            let extra = 2 + r.below(4);
+            for _ in 0..extra {
+                let lang = *r.pick(&["en", "zh", "sr", "und", "pa", "qqq"]);
+                let op = match r.below(if likely { 7 } else { 5 }) {
+                    0 => json!({"op":"set_language","s": bytes(lang.as_bytes()),"key":[],"vals":[]}),
+                    1 => json!({"op":"clear_region","s":[],"key":[],"vals":[]}),
+                    2 => json!({"op":"clear_script","s":[],"key":[],"vals":[]}),
+                    3 => json!({"op":"set_region","s": bytes(r.pick(&["TW", "RS", "PK", "US"]).as_bytes()),"key":[],"vals":[]}),
+                    4 => json!({"op":"set_script","s": bytes(r.pick(&["Hant", "Cyrl", "Arab", "Latn"]).as_bytes()),"key":[],"vals":[]}),
+                    5 => json!({"op":"maximize","s":[],"key":[],"vals":[]}),
+                    _ => json!({"op":"minimize","s":[],"key":[],"vals":[]}),
+                };
+                let at = r.below(scripted.len() + 1);
+                scripted.insert(at, op);
+            }
+        }
         let len = if scripted.is_empty() { 5 + r.below(56) } else { scripted.len() };
         for step in 0..len {
             let op = if scripted.is_empty() { gen_op(r, likely) } else { scripted[step].clone() };
